@@ -97,7 +97,8 @@ fn float_to_integer<T: TryFrom<i128>>(float: f64, target: &str) -> Result<T> {
     // 2^127, the first magnitude an i128 cannot hold.
     const I128_LIMIT: f64 = 170141183460469231731687303715884105728.0;
 
-    if !float.is_finite() || float.abs() >= I128_LIMIT {
+    // -2^127 itself is i128::MIN
+    if !float.is_finite() || float >= I128_LIMIT || float < -I128_LIMIT {
         bail!("`{float}` cannot be made into a {target}")
     }
 
